@@ -88,6 +88,15 @@ fn run_case(seed: u64, idx: u64, all_rates: bool) -> CaseOut {
             None => ProgressBar::with_draw_target(Some(1000), if limited { ProgressDrawTarget::term_like_with_hz(spy.boxed(), rate) } else { ProgressDrawTarget::term_like(spy.boxed()) }).with_style(style(i)),
         })
         .collect();
+    // a MultiProgress may carry the static rows of an earlier, visibly finished and dropped bar
+    let with_reaped = multi && rng.chance(1, 2);
+    if let (true, Some(mp)) = (with_reaped, &mp) {
+        let z = mp.insert(0, ProgressBar::with_draw_target(Some(3), ProgressDrawTarget::hidden()).with_style(ProgressStyle::with_template("Z {pos}/{len}").unwrap()));
+        z.tick();
+        z.finish();
+        drop(z);
+        clock.fetch_add(5_000_000_000, Ordering::SeqCst);
+    }
     let mut model: Vec<(u64, String)> = vec![(0, String::new()); n_bars];
 
     let n_ops = rng.range(200, 1500);
@@ -104,6 +113,9 @@ fn run_case(seed: u64, idx: u64, all_rates: bool) -> CaseOut {
         let mut f = vec![if limited { "limited-target".to_string() } else { "unlimited-target".to_string() }];
         if multi {
             f.push("multi".into());
+        }
+        if with_reaped {
+            f.push("reaped-finished-bar".into());
         }
         if 1000 % rate as u32 != 0 {
             f.push("rate-does-not-divide-1000".into());
